@@ -1036,6 +1036,11 @@ class CxxParser:
 
         dtype = self._parse_cv_ptr(parsed_type)
 
+        # the aliased type may be an array type
+        atok = self.lex.token_if("[")
+        if atok:
+            dtype = self._parse_array_type(atok, dtype)
+
         alias = UsingAlias(id_tok.value, dtype, template, self._current_access, doxygen)
 
         self.visitor.on_using_alias(self.state, alias)
